@@ -21,5 +21,5 @@ PairsOK == {m \in [1..2 -> {Want(c, pr, <<"B", TRUE>>) : c \in Cids, pr \in Prio
 RawEntry == {Want(c, pr, k) : c \in Cids, pr \in Prios, k \in Kinds \cup {<<"H", FALSE>>}} \cup {CancelOf(c) : c \in Cids}
 AllPairs == {MergeInto(<<>>, raw) : raw \in [1..2 -> RawEntry]}
 MCMsgs == Singles \cup PairsOK \cup (IF MCMsgLen >= 2 THEN AllPairs ELSE {})
-View0 == <<cfg, bs, ledger, ghost, q, out, ov>>
+View0 == <<cfg, bs, ledger, ghost, q, out, ov, hold>>
 =============================================================================
